@@ -602,7 +602,7 @@ def run(ctx):
                    "IO.%s and IO.%s no longer delegate the same way (%s vs %s): the same text is written differently to the two streams" % (name, twin.name, a, b))
     # ---------------------------------------------------------------- R11
     r = ctx.rule("C11-R11", "SIBLING", "'a style passed for a single call' reaches the formatter through every facade: a method of IO / Output that forwards to the method of the "
-                 "same name one layer down hands on every one of its parameters (format(string, style) does not become format(string))", reference=14)
+                 "same name one layer down hands on every one of its parameters (format(string, style) does not become format(string))", reference=17)
     n11 = 0
     for cls in (io_cls, out_cls):
         for name, m in sorted(cls.methods.items()):
